@@ -242,7 +242,15 @@ def c10(case, run, limits=None):
             if r is True and why is not None:
                 zero = ("cool-down" in why) and ((k in last_reset and now - last_reset[k] == 0 and limits["reset"] > 0) or (k in last_placed and now - last_placed[k] == 0 and limits["place_reset"] > 0))
                 bad.append(("C10-cooldown-bypassed-at-zero-elapsed" if zero else "C10-limit-exceeded", "step %d: placement of %s accepted although %s" % (si, f["order"], why)))
-            if r is False and why is None:
+            awaited0 = {nm for p in (prev or {}).get("pending_packages", []) + (prev or {}).get("outstanding_calls", []) for nm in p[1]}
+            tr0 = {}
+            for o in (prev["orders"] if prev else []):
+                tr0.setdefault(o["trade"], []).append(o)
+            excused0 = [t for t, os_ in tr0.items() if "%d/%s" % (os_[0]["strategy"], os_[0]["sel"]) == k and os_[0]["trade_status"] == "Complete"
+                        and all(o["complete"] for o in os_) and any(o["o"] in awaited0 for o in os_)]
+            if r is False and why is None and excused0:
+                bad.append(("C10-reused-trade-awaits-response", "step %d: placement of %s refused: the context is still charged with re-used trade(s) %s whose new order completed through the stream before the response to its placement" % (si, f["order"], excused0)))
+            elif r is False and why is None:
                 bad.append(("C10-locked-out", "step %d: placement of %s refused although no limit applies: %d trades, %d with a live order, limits %s" % (si, f["order"], len(trades), len(live), limits)))
         # bookkeeping of the two clocks
         for k, c in ob["ctx"].items():
@@ -283,7 +291,15 @@ def c10(case, run, limits=None):
             if c["trades"] != e["trades"]:
                 bad.append(("C10-trade-count", "step %d: context %s counts %d trades, %d distinct trades were placed" % (si, k, c["trades"], e["trades"])))
             if c["live"] != e["live"]:
-                bad.append(("C10-live-count", "step %d: context %s is charged %d live trades, %d trades still have an order that is not complete" % (si, k, c["live"], e["live"])))
+                # a completed trade that the strategy re-used: the new order completed through the stream while the response to its placement is
+                # still outstanding - the trade is still marked Complete, so the completion of the order does not free the slot until the response
+                awaited = {nm for p in ob.get("pending_packages", []) + ob.get("outstanding_calls", []) for nm in p[1]}
+                excused = [t for t, os_ in trades.items() if "%d/%s" % (os_[0]["strategy"], os_[0]["sel"]) == k and os_[0]["trade_status"] == "Complete"
+                           and all(o["complete"] for o in os_) and any(o["o"] in awaited for o in os_)]
+                if excused and c["live"] == e["live"] + len(excused):
+                    bad.append(("C10-reused-trade-awaits-response", "step %d: context %s is charged %d live trades but only %d have an order that is not complete: trade(s) %s had completed, were re-used for a new order, and that order completed through the order stream before the response to its placement: the trade is still marked Complete, so the slot stays charged until the response arrives" % (si, k, c["live"], e["live"], excused)))
+                else:
+                    bad.append(("C10-live-count", "step %d: context %s is charged %d live trades, %d trades still have an order that is not complete" % (si, k, c["live"], e["live"])))
     return bad
 
 
